@@ -1189,6 +1189,23 @@ def labels_fixed() -> bool:
     return len(labels[0].instances) == 2
 
 
+def single_fixed() -> bool:
+    """which behaviour does SingleInstanceDataset have?  (C18 F181: does it pad `instances` to
+    get_max_instances(labels) or use max_instances = 1 like single_instance_data_chunks?  Replayed
+    witness: a dataset over one frame holding two user instances; read ds.max_instances)"""
+    ls = dict(F110_WITNESS, frames=[{"insts": [{"pts": [[5.0, 5.0], [6.0, 6.0]], "pred": False},
+                                               {"pts": [[1.0, 2.0], [3.0, 4.0]], "pred": False}],
+                                     "video": 0, "frame_idx": 0}])
+    cfg = {"user_instances_only": True, "is_rgb": False, "scale": 1.0, "max_stride": 2, "max_hw": [None, None],
+           "sigma": 1.5, "output_stride": 2, "paf_sigma": 2.0, "paf_stride": 2, "crop_hw": [8, 8], "anchor": None}
+    d = Path(core.scratch_dir("sv_c11single_"))
+    try:
+        ds = make_dataset("SingleInstanceDataset", D.build_labels(ls), cfg, False, d)
+        return int(ds.max_instances) == 1
+    finally:
+        shutil.rmtree(d, ignore_errors=True)
+
+
 def ds_model_part(run, idx_cases):
     """Dataset.run_ds (Coq: user-instance filter, index lists, max_instances, process_lf rows and padding,
     num_instances, scale, the centered-instance dataset's source instance and generate_centroids) against what
@@ -1222,6 +1239,24 @@ def ds_model_part(run, idx_cases):
     fixedL = labels_fixed()
     model2 = core.coq_eval_sharded(pre, [f"({core.cbool(fixedL)}, {term(ls, uo, s, a)})" for ls, uo, s, a, _ in gl],
                                    "run_ds2", f"rpair (rlist (rlist rbool)) ({RDS})", shard=60) if gl else []
+    # SingleInstanceDataset has its own max_instances (1 when C18 F181 is repaired): first and second dataset
+    fixedS = single_fixed()
+
+    def term_single(ls, uo, s):
+        raw = core.clist(ls["frames"], lambda fr: core.clist(
+            fr["insts"], lambda i: f"({core.cbool(not i['pred'])}, {core.clist(i['pts'], kp)})"))
+        return f"({core.cbool(fixedS)}, {core.cbool(fixedL)}, {core.cbool(uo)}, {core.cq(D.frac(s))}, {raw})"
+    RS = "rpair rnat (rlist (rpair (rlist (rlist rkp)) rnat))"
+    msingle = core.coq_eval_sharded(pre, [term_single(ls, uo, s) for ls, uo, s, a, _ in gl], "run_single",
+                                    f"rpair ({RS}) ({RS})", shard=60) if gl else []
+
+    def for_cls(cls, m, ms):
+        """the run_ds result as it applies to the class: SingleInstanceDataset takes max_instances and its samples
+        from run_single"""
+        if cls != "SingleInstanceDataset":
+            return m
+        (mlf, mil, _), (_, mcs) = m
+        return (mlf, mil, ms[0]), (ms[1], mcs)
 
     def kp_close(m, x, shift=None):
         """model keypoint (None / [qx, qy]) vs implementation [x, y] (None = NaN)"""
@@ -1236,7 +1271,7 @@ def ds_model_part(run, idx_cases):
     bad = []
     n_idx = 0
     n_second = n_changed = 0
-    for (ls, uo, s, anchor, members), (mafter, m2) in zip(gl, model2):
+    for (ls, uo, s, anchor, members), (mafter, m2), (_, ms2) in zip(gl, model2, msingle):
         for c, info in members:
             if info.get("labels_after") is not None and info["labels_after"] != mafter:
                 bad.append({"cls": c["cls"], "uo": uo, "frames": ls["frames"], "why":
@@ -1245,12 +1280,13 @@ def ds_model_part(run, idx_cases):
                 info["labels_after"] != [[not i["pred"] for i in fr["insts"]] for fr in ls["frames"]]
             if info.get("second") is not None:
                 n_second += 1
-                why = cmp_ds(c["cls"], info["second"], m2, kp_close)
+                why = cmp_ds(c["cls"], info["second"], for_cls(c["cls"], m2, ms2), kp_close)
                 if why:
                     bad.append({"cls": c["cls"], "np_chunks": c["np_chunks"], "uo": uo, "scale": s, "anchor": anchor,
                                 "frames": ls["frames"], "why": ("SECOND dataset over the same labels: " + why)[:700]})
-    for (ls, uo, s, anchor, members), ((mlf, mil, mmax), (mfs, mcs)) in zip(gl, model):
+    for (ls, uo, s, anchor, members), m1, (ms1, _) in zip(gl, model, msingle):
         for c, info in members:
+            (mlf, mil, mmax), (mfs, mcs) = for_cls(c["cls"], m1, ms1)
             why = None
             if info["lf_idx_list"] != mlf or info["max_instances"] != mmax:
                 why = f"lf_idx_list / max_instances: impl {info['lf_idx_list']}, {info['max_instances']} model {mlf}, {mmax}"
@@ -1285,9 +1321,9 @@ def ds_model_part(run, idx_cases):
                    "every index the `instances` rows / NaN padding / num_instances (frame-level classes) or the cropped "
                    "instance relative to its centroid (centered-instance); the instance lists the caller's labels hold "
                    f"after construction (labels_after, fixedL={fixedL}); the same for a SECOND dataset built over those "
-                   "label objects", not bad, json.dumps(bad[:2])[:900])
+                   f"label objects; SingleInstanceDataset through run_single (fixedS={fixedS}: max_instances = 1, no padding)", not bad, json.dumps(bad[:2])[:900])
     run.coverage["dataset_model"] = {"label_set_x_config_groups": len(gl), "indices_compared": n_idx,
-                                     "fixed": fixed, "fixedL": fixedL, "second_datasets_over_same_labels": n_second,
+                                     "fixed": fixed, "fixedL": fixedL, "fixedS": fixedS, "second_datasets_over_same_labels": n_second,
                                      "histories_that_changed_the_labels": int(n_changed)}
 
 
